@@ -125,10 +125,9 @@ def receiveA (M ver limit : Nat) (s : Bytes) : Recv × List Nat :=
   match s with
   | v :: _ :: a :: b :: c :: d :: rest =>
     if v.toNat ≠ ver then (.badVersion, [6]) else
-    let size := ofBe32 a b c d
-    if size > limit then (.tooLarge size, [6]) else
-    if rest.length < size then (.shortBody size, [6, size])
-    else (.ok (rest.take size) (rest.drop size), [6, size])
+    if ofBe32 a b c d > limit then (.tooLarge (ofBe32 a b c d), [6]) else
+    if rest.length < ofBe32 a b c d then (.shortBody (ofBe32 a b c d), [6, ofBe32 a b c d])
+    else (.ok (rest.take (ofBe32 a b c d)) (rest.drop (ofBe32 a b c d)), [6, ofBe32 a b c d])
   | _ => (.shortHeader, [6])
 
 def receive (M ver limit : Nat) (s : Bytes) : Recv := (receiveA M ver limit s).1
